@@ -1,16 +1,21 @@
 #!/usr/bin/env python3
 """
-tools/gen_lean.py — regenerate lean/KiraModel/Gen.lean from the Rust source in /repo.
+tools/gen_lean.py — regenerate lean/KiraModel/Gen.lean and lean/KiraModel/GenFn.lean from the Rust source in /repo
+(or $KV_REPO; $KV_GEN_OUT=<dir> writes the two files elsewhere — used by tools/gen_lean_selftest.py).
 
-Run by `./check` before every `lake build` (and by setup.sh).  The generated file holds constants
-and small structural facts *extracted from the current source*; the model and some theorems import
-it, so a change of such a constant in the Rust breaks a proof obligation directly.
+Run by `./check` before every `lake build` (and by setup.sh).  The generated files hold constants, enum shapes and
+PURE functions *translated from the current source*; the model takes the bodies of its definitions from them
+(`gen_body% Gen.x …`, KiraModel/Meta.lean) and Proofs/GenAgree*.lean pin them to the last validated hand-written
+readings, so a change of such an item in the Rust changes the model and breaks a proof obligation directly.
 
-Structure: a list of independent EXTRACTORS.  An extractor is a function `() -> str` returning a
-block of Lean definitions (inside `namespace K.Gen`).  It reads files with `src(path)` and finds
-things with `anchor(text, regex, what)`, which raises `Missing` — and the script exits 1, loudly —
-when the anchor pattern is not found.  To add your own: write a function, append it to EXTRACTORS.
-Gen.lean must stay import-free (core Lean only) and must not depend on KiraModel.Num.
+Two mechanisms:
+  * EXTRACTORS (Freeverb, delay): functions `() -> str` returning a block of Lean definitions; they find things with
+    `anchor(text, regex, what)`, which raises `Missing` when the anchor pattern is not found.
+  * `translate(S)`: the item list of the Rust-subset → Lean translator (tools/rs2lean.py; notes/translator.md).
+    To add an item: one `S.fn / S.const / S.value_in_fn / S.default_arg / S.snippet / S.enum / S.struct` line.
+In both cases an item that no longer matches makes the script print the item and exit 1 — loudly, never skipped.
+Gen.lean stays import-free; GenFn.lean imports only KiraModel.Num, KiraModel.Gen, KiraModel.Model.UnitTypes.
+`--manifest` prints the table Rust item → Lean name.
 """
 import os
 import re
@@ -19,7 +24,6 @@ import sys
 ROOT = os.path.dirname(os.path.dirname(os.path.abspath(__file__)))
 REPO = os.environ.get("KV_REPO") or os.environ.get("KIRA_REPO", "/repo")
 KIRA = os.path.join(REPO, "crates", "kira", "src")
-OUT = os.path.join(ROOT, "lean", "KiraModel", "Gen.lean")
 
 
 class Missing(Exception):
@@ -174,6 +178,498 @@ def ex_delay():
 EXTRACTORS = [ex_reverb, ex_delay]
 
 
+# ------------------------------------------------------------------------------------------
+# the translator session (tools/rs2lean.py): items translated from the Rust source
+# ------------------------------------------------------------------------------------------
+sys.path.insert(0, os.path.dirname(os.path.abspath(__file__)))
+import rs2lean as X  # noqa: E402
+
+OUT_DIR = os.environ.get("KV_GEN_OUT") or os.path.join(ROOT, "lean", "KiraModel")
+OUT = os.path.join(OUT_DIR, "Gen.lean")
+OUT_FN = os.path.join(OUT_DIR, "GenFn.lean")
+
+VARIABLE = ("variable {α : Type} [Add α] [Sub α] [Mul α] [Div α] [Neg α] [LT α] [LE α]\n"
+            "  [DecidableLT α] [DecidableLE α] [OfScientific α] [KOps α]\n")
+
+
+def camel(variant):
+    return variant[0].lower() + variant[1:]
+
+
+class Session:
+    """collects the world (types, translated items) and the generated text of the two tiers:
+    tier 0 → Gen.lean (import-free), tier 1 → GenFn.lean (imports Num, Gen, Model/UnitTypes)"""
+
+    def __init__(self):
+        self.w = X.World()
+        self.sources = {}
+        self.tier0 = []
+        self.tier1 = []
+        self.errors = []
+        self.manifest = []   # (rust location, lean name, kind)
+        self.items = []      # what each item reads: dict(kind, rel, header, name, lean, …) (used by the self-test)
+
+    def source(self, rel):
+        if rel not in self.sources:
+            self.sources[rel] = X.Source(rel, src(rel))
+        return self.sources[rel]
+
+    def guarded(self, what, thunk):
+        """run one item; an error is recorded under the item's name (and the run fails at the end)"""
+        try:
+            thunk()
+        except (X.XlateError, Missing) as e:
+            self.errors.append(f"{what}: {e}")
+        except RecursionError:
+            self.errors.append(f"{what}: parser recursion limit")
+
+    def emit(self, tier, text):
+        (self.tier0 if tier == 0 else self.tier1).append(text)
+
+    # ---- type declarations the translator needs to know about ---------------------------------
+    def newtype(self, rel, name):
+        self.items.append({"kind": "newtype", "rel": rel, "name": name, "lean": name})
+        def go():
+            st = self.source(rel).struct(name)
+            if st["kind"] != "tuple" or len(st["types"]) != 1 or st["types"][0] not in X.FLOATS:
+                raise X.XlateError(f"{rel}::{name} is not a newtype over f32/f64")
+            self.w.newtypes[name] = {"inner": st["types"][0], "derives": st["derives"]}
+            self.manifest.append((f"{rel}::struct {name}", f"(erased to its inner {st['types'][0]})", "newtype"))
+        self.guarded(f"{rel}::struct {name}", go)
+
+    def struct(self, rel, name, lean, fields, dropped=()):
+        """`fields`: {rust path: (lean field, rust type)} in Lean constructor order; checked against the source"""
+        self.items.append({"kind": "struct", "rel": rel, "name": name, "lean": lean})
+        def go():
+            st = self.source(rel).struct(name)
+            if st["kind"] != "named":
+                raise X.XlateError(f"{rel}::{name}: not a struct with named fields")
+            actual = {}
+            for f, t in st["fields"]:
+                if f in dropped:
+                    continue
+                m = re.fullmatch(r"\((.*)\)", t)
+                if m:
+                    for i, part in enumerate(p.strip() for p in m.group(1).split(",")):
+                        actual[f"{f}.{i}"] = part
+                else:
+                    actual[f] = t
+            want = {k: v[1] for k, v in fields.items()}
+            if actual != want:
+                raise X.XlateError(f"{rel}::struct {name}: fields in the source {actual} ≠ fields the model has {want}")
+            self.w.structs[name] = {"lean": lean, "fields": dict(fields), "order": list(fields), "dropped": set(dropped)}
+            self.manifest.append((f"{rel}::struct {name}", lean, "struct (hand type, fields checked)"))
+        self.guarded(f"{rel}::struct {name}", go)
+
+    def enum(self, rel, name, lean=None, head=None, shape="auto", use_shape=False):
+        """read `enum name`; emit `Shape.<name>Tag` (always) and `Shape.<name>` with payloads (when every payload
+        type has a Lean counterpart) into tier 0.  With `use_shape` translated functions range over the generated
+        tag type (for enums whose hand type lives late in the import graph)."""
+        self.items.append({"kind": "enum", "rel": rel, "name": name, "lean": f"Shape.{name}Tag"})
+        def go():
+            en = self.source(rel).enum(name)
+            tagname = f"Shape.{name}Tag"
+            lines = [f"/-- {rel}::{name}: the variants in declaration order (names only) -/",
+                     f"inductive {tagname} where"]
+            for v, kind, fs in en["variants"]:
+                lines.append(f"  | {camel(v)}")
+            lines.append("deriving DecidableEq, Repr\n")
+            self.emit(0, "\n".join(lines))
+            tmap = {"f32": "α", "f64": "α", "i32": "Int", "i64": "Int", "u32": "Nat", "u64": "Nat", "usize": "Nat",
+                    "Duration": "Nat", "bool": "Bool"}
+            full_ok = all(t in tmap for _, _, fs in en["variants"] for _, t in fs)
+            has_payload = any(fs for _, _, fs in en["variants"])
+            if full_ok and has_payload:
+                uses_alpha = any(tmap[t] == "α" for _, _, fs in en["variants"] for _, t in fs)
+                lines = [f"/-- {rel}::{name}: the variants in declaration order with their payloads "
+                         f"(f32/f64 ↦ α, i32 ↦ Int, u64/usize ↦ Nat, Duration ↦ Nat) -/",
+                         f"inductive Shape.{name}" + (" (α : Type)" if uses_alpha else "") + " where"]
+                for v, kind, fs in en["variants"]:
+                    bs = " ".join(f"({fn or 'a' + str(i)} : {tmap[t]})" for i, (fn, t) in enumerate(fs))
+                    lines.append(f"  | {camel(v)}" + (" " + bs if bs else ""))
+                lines.append("")
+                self.emit(0, "\n".join(lines))
+            elif has_payload:
+                desc = ", ".join(f"{v}({', '.join(t for _, t in fs)})" for v, _, fs in en["variants"] if fs)
+                self.emit(0, f"-- {rel}::{name}: payloads without a tier-0 Lean counterpart: {desc}\n")
+            variants = {}
+            for v, kind, fs in en["variants"]:
+                variants[v] = (camel(v), [t for _, t in fs], [fn for fn, _ in fs])
+            if use_shape:
+                self.w.enums[name] = {"lean": tagname, "head": tagname, "variants": variants,
+                                      "order": [v for v, _, _ in en["variants"]], "derives": en["derives"]}
+            elif lean is not None:
+                self.w.enums[name] = {"lean": lean, "head": head or name, "variants": variants,
+                                      "order": [v for v, _, _ in en["variants"]], "derives": en["derives"]}
+            self.manifest.append((f"{rel}::enum {name}", f"K.Gen.{tagname}"
+                                  + (f", K.Gen.Shape.{name}" if full_ok and has_payload else ""), "enum shape"))
+        self.guarded(f"{rel}::enum {name}", go)
+
+    # ---- constants ----------------------------------------------------------------------------
+    def lower(self, rel, self_type, what, generics=None):
+        return X.Lower(self.w, self.source(rel), self_type, what, generics)
+
+    def def_text(self, lean, binders, ret, body, doc):
+        head = f"/-- {doc} -/\ndef {lean}" + ("".join(" " + b for b in binders)) + f" : {ret} :="
+        return head + "\n  " + X.wrap(body) + "\n"
+
+    def const(self, rel, header, name, lean, owner=None, tier=1, in_fn=None):
+        """`const NAME: T = expr;` inside `header` (an impl, or with in_fn a fn body); registered under `owner`
+        (a type) or the file"""
+        self.items.append({"kind": "const", "rel": rel, "header": header, "name": name, "in_fn": in_fn, "lean": lean})
+        def go():
+            c = self.source(rel).const(header, name, in_fn)
+            lo = self.lower(rel, owner, c["what"])
+            ty = lo.resolve_type(c["type"])
+            r = lo.coerce(lo.expr(c["expr"], {}, ty), ty)
+            lt = lo.lt(ty)
+            self.emit(tier, self.def_text(lean, [], lt, r.text, f"generated from {c['what']} (`{c['type']}`)"))
+            self.w.consts[(owner if owner else rel, name)] = (f"({lean} : {lt})" if lt == "α" else lean, ty)
+            self.manifest.append((c["what"], f"K.Gen.{lean}", "constant"))
+        self.guarded(f"{rel}::{header}::{name}", go)
+
+    def pick_expr(self, e, pick, what):
+        for step in pick:
+            if step[0] == "field":
+                if e[0] == "block" and not e[1] and e[2] is not None:
+                    e = e[2]
+                if e[0] != "struct":
+                    raise X.XlateError(f"{what}: expected a struct literal, found `{e[0]}`")
+                hit = [x for f, x in e[2] if f == step[1]]
+                if len(hit) != 1:
+                    raise X.XlateError(f"{what}: struct literal has no field `{step[1]}`")
+                e = hit[0]
+            elif step[0] == "arg":
+                if e[0] not in ("call", "mcall"):
+                    raise X.XlateError(f"{what}: expected a call, found `{e[0]}`")
+                callee = "::".join(e[1][1]) if e[0] == "call" and e[1][0] == "path" else e[2]
+                if callee != step[1]:
+                    raise X.XlateError(f"{what}: expected a call of `{step[1]}`, found `{callee}`")
+                args = e[2] if e[0] == "call" else e[3]
+                if step[2] >= len(args):
+                    raise X.XlateError(f"{what}: call of `{callee}` has no argument {step[2]}")
+                e = args[step[2]]
+            elif step[0] == "tail":
+                if e[0] != "block" or e[1] or e[2] is None:
+                    raise X.XlateError(f"{what}: expected a body that is a single expression")
+                e = e[2]
+        return e
+
+    def value_in_fn(self, rel, header, fn, pick, ty, lean, owner=None, tier=1):
+        """a sub-expression of the (single-expression) body of `fn`, e.g. one field initialiser of the struct
+        literal a `default()` returns, or the default argument of a `Parameter::new(…)` in a constructor"""
+        self.items.append({"kind": "value_in_fn", "rel": rel, "header": header, "name": fn, "pick": pick, "lean": lean})
+        def go():
+            fd = self.source(rel).fn(header, fn)
+            what = fd["what"] + " " + " ".join(str(s[1]) for s in pick)
+            e = self.pick_expr(fd["body"], [("tail",)] + list(pick), what)
+            lo = self.lower(rel, owner, what)
+            r = lo.coerce(lo.expr(e, {}, ty), ty)
+            lt = lo.lt(ty)
+            self.emit(tier, self.def_text(lean, [], lt, r.text, f"generated from {what}"))
+            self.manifest.append((what, f"K.Gen.{lean}", "constant"))
+        self.guarded(f"{rel}::{header}::{fn} {pick}", go)
+
+    def default_arg(self, rel, header, fn, field, ty, lean, callee="Parameter::new", argi=1, count=1, tier=1,
+                    owner=None):
+        """argument `argi` of `field: callee(…)` in the body of `fn` (e.g. the default raw value a `Parameter`
+        takes until a modulator-linked value is first read); `count` occurrences, which must all be equal"""
+        self.items.append({"kind": "default_arg", "rel": rel, "header": header, "name": fn, "field": field,
+                           "callee": callee, "lean": lean})
+        def go():
+            calls, what = self.source(rel).field_call(header, fn, field, callee)
+            if len(calls) != count:
+                raise X.XlateError(f"{what}: found {len(calls)} occurrences, expected {count}")
+            lo = self.lower(rel, owner, what)
+            texts = set()
+            for c in calls:
+                args = c[2]
+                if argi >= len(args):
+                    raise X.XlateError(f"{what}: no argument {argi}")
+                r = lo.coerce(lo.expr(args[argi], {}, ty), ty)
+                texts.add(r.text)
+            if len(texts) != 1:
+                raise X.XlateError(f"{what}: the occurrences disagree: {sorted(texts)}")
+            self.emit(tier, self.def_text(lean, [], lo.lt(ty), texts.pop(), f"generated from {what} (argument {argi})"))
+            self.manifest.append((what, f"K.Gen.{lean}", "constant"))
+        self.guarded(f"{rel}::{header}::{fn} {field}: {callee}", go)
+
+    def snippet(self, rel, header, fn, first, last, inputs, outputs, lean, ret, tier=1):
+        """a run of `let` statements inside an otherwise imperative fn, as a function of the named inputs
+        returning the anonymous-constructor tuple of `outputs` (Lean type `ret`)"""
+        self.items.append({"kind": "snippet", "rel": rel, "header": header, "name": fn, "first": first, "last": last,
+                           "lean": lean})
+        def go():
+            blk, what = self.source(rel).let_range(header, fn, first, last)
+            lo = self.lower(rel, None, what)
+            env, binders = {}, []
+            for n, t in inputs:
+                env[n] = (lo.lname(n), t)
+                binders.append(f"({lo.lname(n)} : {lo.lt(t)})")
+            tail = ("struct", ["__Out"], [(o, ("path", [o])) for o in outputs], None)
+            self.w.structs["__Out"] = {"lean": ret, "fields": {}, "order": list(outputs), "dropped": set()}
+            out_types = {}
+
+            class _L(X.Lower):
+                pass
+            # outputs are read back from the environment after the lets: translate the block with a tail that
+            # mentions every output, typing each by its own binding
+            def struct_lit(e, env2, expect):
+                rs = [lo.expr(("path", [o]), env2, None) for o in outputs]
+                return X.R("⟨" + ", ".join(x.text for x in rs) + "⟩", "__Out", atomic=True)
+            lo.struct_lit = struct_lit
+            body = lo.block(("block", blk[1], tail), env, "__Out", tail=True)
+            del self.w.structs["__Out"]
+            self.emit(tier, self.def_text(lean, binders, ret, body.text,
+                                          f"generated from {what}: inputs {[n for n, _ in inputs]}, outputs {outputs}"))
+            self.manifest.append((what, f"K.Gen.{lean}", "let-range"))
+        self.guarded(f"{rel}::{header}::{fn} let {first}..{last}", go)
+
+    # ---- functions ----------------------------------------------------------------------------
+    def fn(self, rel, header, name, lean, self_type=None, op=None, unop=None, trait=None, flatten_self=None,
+           generics=None, tier=1, register=True, drop_params=()):
+        """translate `fn name` found in `header`.  op=('+', rhs type): register as the operator impl;
+        trait='Tweenable::interpolate': register as that trait fn at `self_type`;
+        flatten_self={field: rust type}: the item takes these fields of `self` instead of `self`;
+        generics={'T': (dict name, dict lean type, {fn: (lean field, [param types], ret)}, lean type of T)}"""
+        self.items.append({"kind": "fn", "rel": rel, "header": header, "name": name, "lean": lean})
+        def go():
+            fd = self.source(rel).fn(header, name)
+            gmap, extra, implicit = {}, [], []
+            for tv, (dname, dtype, fields, tlean) in (generics or {}).items():
+                gmap[tv] = (dname, fields, None, tlean)
+                implicit.append(f"{{{tlean} : Type}}")
+                extra.append((dname, dtype))
+            lo = self.lower(rel, self_type, fd["what"], gmap)
+            lo.header = header
+            env, binders, params = {}, list(implicit) + [f"({d} : {t})" for d, t in extra], []
+            for pn, pt, _ in fd["params"]:
+                if pn in drop_params:
+                    continue      # a parameter that only feeds fields the model does not have
+                if pn == "self":
+                    if self_type is None:
+                        raise X.XlateError(f"{fd['what']}: `self` but no self type given")
+                    if flatten_self:
+                        flat = {}
+                        for f, ft in flatten_self.items():
+                            flat[f] = (lo.lname(f), ft)
+                            binders.append(f"({lo.lname(f)} : {lo.lt(ft)})")
+                            params.append((f, ft))
+                        env["self"] = flat
+                        continue
+                    pt = self_type
+                else:
+                    pt = lo.resolve_type(pt)
+                env[pn] = (lo.lname(pn), pt)
+                binders.append(f"({lo.lname(pn)} : {lo.lt(pt)})")
+                params.append((pn, pt))
+            if fd["ret"] is None:
+                raise X.XlateError(f"{fd['what']}: no return type (not a pure function)")
+            ret = lo.resolve_type(fd["ret"])
+            item = X.Item(lean, params, ret, self_type, fd, extra)
+            lo.current = item
+            lo.current_fn_name = name
+            body = lo.block(fd["body"], env, ret, tail=True)
+            lo.coerce(body, ret)
+            if ret == "bool":
+                body = lo.as_bool(body)
+            sig = "fn " + name + "(" + ", ".join(f"{a}: {b}" for a, b, _ in fd["params"]) + ") -> " + fd["ret"]
+            self.emit(tier, self.def_text(lean, binders, lo.lt(ret), body.text,
+                                          f"generated from {fd['what']}  (`{sig}`)"))
+            if register:
+                if op is not None:
+                    self.w.ops[(op[0], self_type, op[1])] = item
+                elif unop is not None:
+                    self.w.unops[(unop, self_type)] = item
+                elif trait is not None:
+                    self.w.trait_fns[(trait, self_type)] = item
+                else:
+                    self.w.fns[(self_type, name)] = item
+            self.manifest.append((fd["what"], f"K.Gen.{lean}", "function"))
+        self.guarded(f"{rel}::{header}::{name}", go)
+
+    def nat_const(self, rel, pattern, what, lean, doc, tier=0):
+        self.items.append({"kind": "nat_const", "rel": rel, "pattern": pattern, "name": what, "lean": lean})
+        def go():
+            m = anchor(X.strip_comments(src(rel)), pattern, what)
+            self.emit(tier, def_nat(lean, m.group(1).replace("_", ""), doc))
+            self.manifest.append((f"{rel}: {what}", f"K.Gen.{lean}", "constant (anchor)"))
+        self.guarded(f"{rel}: {what}", go)
+
+
+def translate(S):
+    """the item list: Rust location → Lean name.  Order matters: an item may only use items above it."""
+    # -- unit newtypes (erased) and the hand types the generated functions range over
+    S.newtype("decibels.rs", "Decibels")
+    S.newtype("panning.rs", "Panning")
+    S.newtype("semitones.rs", "Semitones")
+    S.newtype("playback_rate.rs", "PlaybackRate")
+    S.newtype("mix.rs", "Mix")
+    S.struct("frame.rs", "Frame", "Frame α", {"left": ("left", "f32"), "right": ("right", "f32")})
+    S.enum("tween.rs", "Easing", lean="Easing α", head="Easing")
+    S.enum("clock/clock_speed.rs", "ClockSpeed", lean="ClockSpeed α", head="ClockSpeed")
+    S.enum("modulator/lfo.rs", "Waveform", lean="Waveform α", head="Waveform")
+    S.struct("value.rs", "Mapping", "Mapping α τ",
+             {"input_range.0": ("in0", "f64"), "input_range.1": ("in1", "f64"),
+              "output_range.0": ("out0", "T"), "output_range.1": ("out1", "T"), "easing": ("easing", "Easing")})
+    # -- enum shapes only (hand types live later in the import graph, or carry payloads modelled differently)
+    S.enum("sound.rs", "PlaybackState", lean="PlaybackState", head="PlaybackState")
+    S.enum("effect/distortion.rs", "DistortionKind", lean="DistortionKind", head="DistortionKind")
+    S.enum("effect/filter.rs", "FilterMode", lean="FilterMode", head="FilterMode")
+    S.enum("effect/eq_filter.rs", "EqFilterKind", lean="EqFilterKind", head="EqFilterKind")
+    S.struct("clock/time.rs", "ClockTime", "ClockTime α", {"ticks": ("ticks", "u64"), "fraction": ("fraction", "f64")},
+             dropped=("clock",))
+    S.struct("effect/eq_filter.rs", "Coefficients", "EqCoefs α",
+             {f: (f, "f64") for f in ("a1", "a2", "a3", "m0", "m1", "m2")})
+    S.enum("start_time.rs", "StartTime")
+    S.enum("sound.rs", "EndPosition")
+
+    # -- constants
+    S.const("decibels.rs", "impl Decibels", "SILENCE", "decibelsSilence", owner="Decibels")
+    S.const("decibels.rs", "impl Decibels", "IDENTITY", "decibelsIdentity", owner="Decibels")
+    S.const("panning.rs", "impl Panning", "LEFT", "panningLeft", owner="Panning")
+    S.const("panning.rs", "impl Panning", "CENTER", "panningCenter", owner="Panning")
+    S.const("panning.rs", "impl Panning", "RIGHT", "panningRight", owner="Panning")
+    S.const("mix.rs", "impl Mix", "DRY", "mixDry", owner="Mix")
+    S.const("mix.rs", "impl Mix", "WET", "mixWet", owner="Mix")
+
+    # -- decibels, semitones
+    S.fn("decibels.rs", "impl Decibels", "as_amplitude", "decibelsAsAmplitude", self_type="Decibels")
+    S.fn("semitones.rs", "impl From<Semitones> for PlaybackRate", "from", "semitonesToPlaybackRate",
+         self_type="PlaybackRate", register=False)
+
+    # -- Tweenable::interpolate
+    TW = "Tweenable::interpolate"
+    S.fn("tween/tweenable.rs", "impl Tweenable for f32", "interpolate", "f32Interpolate", self_type="f32", trait=TW)
+    S.fn("tween/tweenable.rs", "impl Tweenable for f64", "interpolate", "f64Interpolate", self_type="f64", trait=TW)
+    S.fn("tween/tweenable.rs", "impl Tweenable for Duration", "interpolate", "durationInterpolate",
+         self_type="Duration", trait=TW)
+    S.fn("decibels.rs", "impl Tweenable for Decibels", "interpolate", "decibelsInterpolate", self_type="Decibels", trait=TW)
+    S.fn("panning.rs", "impl Tweenable for Panning", "interpolate", "panningInterpolate", self_type="Panning", trait=TW)
+    S.fn("mix.rs", "impl Tweenable for Mix", "interpolate", "mixInterpolate", self_type="Mix", trait=TW)
+    S.fn("playback_rate.rs", "impl Tweenable for PlaybackRate", "interpolate", "playbackRateInterpolate",
+         self_type="PlaybackRate", trait=TW)
+    S.fn("semitones.rs", "impl Tweenable for Semitones", "interpolate", "semitonesInterpolate",
+         self_type="Semitones", trait=TW)
+
+    # -- frames
+    S.fn("frame.rs", "impl Frame", "new", "frameNew", self_type="Frame")
+    S.fn("frame.rs", "impl Frame", "from_mono", "frameFromMono", self_type="Frame")
+    S.fn("frame.rs", "impl Add for Frame", "add", "frameAdd", self_type="Frame", op=("+", "Frame"))
+    S.fn("frame.rs", "impl Sub for Frame", "sub", "frameSub", self_type="Frame", op=("-", "Frame"))
+    S.fn("frame.rs", "impl Mul<f32> for Frame", "mul", "frameMulF32", self_type="Frame", op=("*", "f32"))
+    S.fn("frame.rs", "impl Div<f32> for Frame", "div", "frameDivF32", self_type="Frame", op=("/", "f32"))
+    S.fn("frame.rs", "impl Neg for Frame", "neg", "frameNeg", self_type="Frame", unop="-")
+    S.fn("frame.rs", "impl Frame", "panned", "framePanned", self_type="Frame")
+    S.fn("frame.rs", "impl Frame", "as_mono", "frameAsMono", self_type="Frame")
+    S.fn("frame.rs", None, "interpolate_frame", "interpolateFrame")
+
+    # -- clock speed
+    S.fn("clock/clock_speed.rs", "impl ClockSpeed", "as_seconds_per_tick", "clockSpeedAsSecondsPerTick", self_type="ClockSpeed")
+    S.fn("clock/clock_speed.rs", "impl ClockSpeed", "as_ticks_per_second", "clockSpeedAsTicksPerSecond", self_type="ClockSpeed")
+    S.fn("clock/clock_speed.rs", "impl ClockSpeed", "as_ticks_per_minute", "clockSpeedAsTicksPerMinute", self_type="ClockSpeed")
+    S.fn("clock/clock_speed.rs", "impl ClockSpeed", "interpolate_in_unit_of_start", "clockSpeedInterpolateInUnitOfStart",
+         self_type="ClockSpeed")
+    S.fn("clock/clock_speed.rs", "impl Tweenable for ClockSpeed", "interpolate", "clockSpeedInterpolate",
+         self_type="ClockSpeed", trait=TW)
+
+    # -- clock time (one clock: the `clock` field is dropped; `u64` is `Nat`, so `+` cannot overflow)
+    S.fn("clock/time.rs", "impl ClockTime", "from_ticks_f64", "clockTimeFromTicksF64", self_type="ClockTime",
+         drop_params=("clock",))
+    S.fn("clock/time.rs", "impl Add<u64> for ClockTime", "add", "clockTimeAddU64", self_type="ClockTime",
+         op=("+", "u64"))
+
+    # -- easing, tween, mapping
+    S.fn("tween.rs", "impl Easing", "apply", "easingApply", self_type="Easing")
+    S.fn("tween.rs", "impl Tween", "value", "tweenValue", self_type="Tween",
+         flatten_self={"easing": "Easing", "duration": "Duration"})
+    S.value_in_fn("tween.rs", "impl Default for Tween", "default", [("field", "duration")], "Duration",
+                  "tweenDefaultDurationNs", tier=0)
+    S.value_in_fn("tween.rs", "impl Default for Tween", "default", [("field", "easing")], "Easing",
+                  "tweenDefaultEasing")
+    S.value_in_fn("tween.rs", "impl Default for Easing", "default", [], "Easing", "easingDefault", owner="Easing")
+    S.fn("value.rs", "impl<T> Mapping<T>", "map", "mappingMap", self_type="Mapping",
+         generics={"T": ("tw", "Tweenable α τ", {"interpolate": ("lerp", ["T", "T", "f64"], "T")}, "τ")})
+
+    # -- LFO
+    S.fn("modulator/lfo.rs", "impl Waveform", "value", "waveformValue", self_type="Waveform")
+
+    S.value_in_fn("modulator/lfo/builder.rs", "impl Default for LfoBuilder", "default", [("field", "waveform")],
+                  "Waveform", "lfoDefaultWaveform")
+    for field in ("frequency", "amplitude", "offset"):
+        S.value_in_fn("modulator/lfo/builder.rs", "impl Default for LfoBuilder", "default",
+                      [("field", field), ("arg", "Value::Fixed", 0)], "f64", "lfoBuilderDefault" + field.capitalize())
+        S.default_arg("modulator/lfo.rs", "impl Lfo", "new", field, "f64", "lfoDefault" + field.capitalize())
+    S.value_in_fn("modulator/lfo/builder.rs", "impl Default for LfoBuilder", "default", [("field", "starting_phase")],
+                  "f64", "lfoBuilderDefaultStartingPhase")
+
+    # -- playback state
+    S.fn("sound.rs", "impl PlaybackState", "is_advancing", "playbackStateIsAdvancing", self_type="PlaybackState")
+
+    # -- spatial tracks
+    S.const("track/sub.rs", None, "EAR_DISTANCE", "earDistance", in_fn="listener_ear_positions")
+    S.const("track/sub.rs", None, "EAR_ANGLE_FROM_HEAD", "earAngleFromHead", in_fn="listener_ear_directions")
+    S.default_arg("track/sub/spatial_builder.rs", "impl SpatialTrackBuilder", "build", "spatialization_strength",
+                  "f32", "spatialDefaultSpatializationStrength")
+
+    # -- sizes and capacities
+    for field in ("sub_track_capacity", "send_track_capacity", "clock_capacity", "modulator_capacity",
+                  "listener_capacity"):
+        S.value_in_fn("manager/settings.rs", "impl Default for Capacities", "default", [("field", field)], "usize",
+                      "default" + "".join(w.capitalize() for w in field.split("_")), tier=0)
+    S.value_in_fn("manager/settings.rs", "impl<B: Backend> Default for AudioManagerSettings<B>", "default",
+                  [("field", "internal_buffer_size")], "usize", "defaultInternalBufferSize", tier=0)
+    S.const("sound/streaming/sound/decode_scheduler.rs", None, "BUFFER_SIZE", "streamingBufferSize", tier=0)
+    S.const("sound/streaming/data.rs", None, "ERROR_BUFFER_CAPACITY", "streamingErrorBufferCapacity", tier=0)
+    S.nat_const("sound/static_sound/sound/resampler.rs", r"frames: \[RecentFrame; (\d+)\],",
+                "the resampler window `frames: [RecentFrame; N]`", "resamplerWindow",
+                "sound/static_sound/sound/resampler.rs::Resampler: `frames: [RecentFrame; N]`")
+
+    # -- effects: filter
+    S.default_arg("effect/filter.rs", "impl Filter", "new", "cutoff", "f64", "filterDefaultCutoff")
+    S.default_arg("effect/filter.rs", "impl Filter", "new", "resonance", "f64", "filterDefaultResonance")
+    S.default_arg("effect/filter.rs", "impl Filter", "new", "mix", "Mix", "filterDefaultMix")
+    S.snippet("effect/filter.rs", "impl Effect for Filter", "process", "sample_rate", "a3",
+              [("cutoff", "f64"), ("resonance", "f64"), ("dt", "f64")], ["k", "a1", "a2", "a3"],
+              "filterCoefs", "FilterCoefs α")
+    # -- effects: EQ filter
+    S.const("effect/eq_filter.rs", None, "MIN_Q", "eqFilterMinQ")
+    S.default_arg("effect/eq_filter.rs", "impl EqFilter", "new", "frequency", "f64", "eqFilterDefaultFrequency")
+    S.default_arg("effect/eq_filter.rs", "impl EqFilter", "new", "gain", "Decibels", "eqFilterDefaultGain")
+    S.default_arg("effect/eq_filter.rs", "impl EqFilter", "new", "q", "f64", "eqFilterDefaultQ")
+    S.fn("effect/eq_filter.rs", "impl Coefficients", "calculate", "eqCoefficientsCalculate", self_type="Coefficients")
+    # -- effects: compressor, distortion, volume / panning control
+    for name, lean in (("DEFAULT_THRESHOLD", "compressorDefaultThreshold"), ("DEFAULT_RATIO", "compressorDefaultRatio"),
+                       ("DEFAULT_ATTACK_DURATION", "compressorDefaultAttackNs"),
+                       ("DEFAULT_RELEASE_DURATION", "compressorDefaultReleaseNs"),
+                       ("DEFAULT_MAKEUP_GAIN", "compressorDefaultMakeupGain"), ("DEFAULT_MIX", "compressorDefaultMix")):
+        S.const("effect/compressor/builder.rs", "impl CompressorBuilder", name, lean, owner="CompressorBuilder")
+    S.value_in_fn("effect/distortion.rs", "impl Default for DistortionKind", "default", [], "DistortionKind",
+                  "distortionDefaultKind", owner="DistortionKind")
+    S.value_in_fn("effect/distortion/builder.rs", "impl Default for DistortionBuilder", "default",
+                  [("field", "drive"), ("arg", "Value::Fixed", 0)], "Decibels", "distortionDefaultDrive")
+    S.value_in_fn("effect/distortion/builder.rs", "impl Default for DistortionBuilder", "default",
+                  [("field", "mix"), ("arg", "Value::Fixed", 0)], "Mix", "distortionDefaultMix")
+    S.default_arg("effect/volume_control.rs", "impl VolumeControl", "new", "volume", "Decibels", "volumeControlDefault")
+    S.default_arg("effect/panning_control.rs", "impl PanningControl", "new", "panning", "Panning", "panningControlDefault")
+    # -- sounds: default raw values of the three parameters
+    for rel, hdr, pre in (("sound/static_sound/sound.rs", "impl StaticSound", "staticSound"),
+                          ("sound/streaming/sound.rs", "impl StreamingSound", "streamingSound")):
+        S.default_arg(rel, hdr, "new", "volume", "Decibels", pre + "DefaultVolume")
+        S.default_arg(rel, hdr, "new", "playback_rate", "PlaybackRate", pre + "DefaultPlaybackRate")
+        S.default_arg(rel, hdr, "new", "panning", "Panning", pre + "DefaultPanning")
+    S.default_arg("clock.rs", "impl Clock", "new", "speed", "ClockSpeed", "clockDefaultSpeed", count=1)
+
+
+def render_manifest(S):
+    rows = ["| Rust item | Lean | kind |", "|---|---|---|"]
+    for a, b, c in S.manifest:
+        rows.append(f"| `{a}` | `{b}` | {c} |")
+    return "\n".join(rows) + "\n"
+
+
+
+
 def main():
     blocks = []
     errors = []
@@ -182,13 +678,36 @@ def main():
             blocks.append(f"/-! ### {ex.__name__}: {(ex.__doc__ or '').strip()} -/\n\n" + ex())
         except Missing as e:
             errors.append(f"{ex.__name__}: {e}")
+    S = Session()
+    try:
+        translate(S)
+    except Missing as e:
+        errors.append(f"translate: {e}")
+    errors += S.errors
+    if "--manifest" in sys.argv:
+        print(render_manifest(S))
     if errors:
-        print("gen_lean.py: EXTRACTION FAILED (the Rust source no longer matches an anchor pattern):")
+        print("gen_lean.py: EXTRACTION FAILED (the Rust source no longer matches an anchor pattern / the translated subset):")
         for e in errors:
             print("  " + e)
         return 1
     text = ("/-\n  Gen.lean — GENERATED by tools/gen_lean.py from the Rust source (crates/kira/src) on every check run.\n"
-            "  Do not edit.  Import-free.\n-/\n\nnamespace K.Gen\n\n" + "\n".join(blocks) + "\nend K.Gen\n")
+            "  Do not edit.  Import-free.\n-/\n\nnamespace K.Gen\n\n" + "\n".join(blocks)
+            + "\n/-! ### translated by tools/rs2lean.py (tier 0: needs no `KOps`) -/\n\n" + "\n".join(S.tier0)
+            + "\nend K.Gen\n")
+    text_fn = ("/-\n  GenFn.lean — GENERATED by tools/gen_lean.py (translator: tools/rs2lean.py) from the Rust source on every "
+               "check run.\n  Do not edit.  Imports only the numeric interface, Gen.lean and the hand-written type "
+               "declarations\n  (all core-only), so the twin still links natively.\n-/\n"
+               "import KiraModel.Num\nimport KiraModel.Gen\nimport KiraModel.Model.UnitTypes\n\nnamespace K.Gen\n\n"
+               + VARIABLE + "\n" + "\n".join(S.tier1) + "\nend K.Gen\n")
+    for path, body in ((OUT_FN, text_fn),):
+        oldb = open(path).read() if os.path.exists(path) else None
+        if oldb != body:
+            with open(path, "w") as f:
+                f.write(body)
+            print(f"gen_lean.py: wrote {os.path.relpath(path, ROOT)} ({len(S.manifest)} translated items)")
+        else:
+            print(f"gen_lean.py: {os.path.relpath(path, ROOT)} up to date ({len(S.manifest)} translated items)")
     old = open(OUT).read() if os.path.exists(OUT) else None
     if old != text:
         with open(OUT, "w") as f:
